@@ -381,6 +381,9 @@ impl Monitor {
                 if let (Some(l), Some(b)) = (pre.listing_by_id(*lid), pre.bucket_at(&a.sender, *bid)) {
                     if b.fee.is_some() {
                         self.hit("proceeds_bucket_reused_with_pending_fee");
+                        if b.fee.as_ref().map(|x| x.0.as_str()) != Some(pre.fee_denom()) {
+                            self.hit("carried_fee_in_other_denom_at_purchase");
+                        }
                     }
                     if self.proceeds.contains(bid) {
                         self.hit("proceeds_bucket_reused");
@@ -1103,6 +1106,14 @@ fn compare_misc(pre: &Obs, post: &Obs, eff: &Effect, a: &Action, names: &Names, 
             // C10: nothing lost, nothing duplicated (carried fee included)
             if pend + dp != owed || post.pool_of(&d) < pre.pool_of(&d) {
                 f.push(Finding::new("C10.fee_conservation", "buy", m.clone()));
+                // C13: a fee recorded before a switch keeps its denomination and amount
+                if d != pre.fee_denom() {
+                    f.push(Finding::new(
+                        "C13.recorded_fee_changed",
+                        "buy",
+                        format!("{m} — {d} is not the denomination in force ({}): a fee recorded before the switch was altered", pre.fee_denom()),
+                    ));
+                }
             }
             // C06: the fee of THIS trade is accounted for in full and nothing beyond what is owed is taken
             if pend + dp < newly || pend + dp > owed {
